@@ -621,7 +621,7 @@ pub fn c14<T: Px>(thorough: bool) -> Vec<CellDef> {
             }));
         }
     }
-    let hb = if thorough { 14 } else { 9 };
+    let hb = if thorough { 16 } else { 12 };
     let ints64 = move || -> Vec<(String, Space)> {
         let ext: Vec<u128> = {
             let mut l = vec![];
